@@ -173,7 +173,16 @@ class TypeGen:
                 return {"k": "newtype", "i": d(st.integers(0, len(self.prog["newtypes"]) - 1))}
             return self.newtype()
         if k == "std":
-            return {"k": "std", "t": pick(d, sorted(x for x in STD_VALID if x != "ver" or self.cfg.get("std_multi")))}
+            t_ = {"k": "std", "t": pick(d, sorted(x for x in STD_VALID if x != "ver" or self.cfg.get("std_multi")))}
+            if self.cfg["constraints"] and t_["t"] not in ("ver", "amount") and chance(d, 0.25):
+                # constraints given from outside the converted type: they apply to its source datum (string / number)
+                c = self.constraints("float" if t_["t"] == "decimal" else "str")
+                if c:
+                    c.pop("pattern", None)
+                    c.pop("mult_of", None)
+                if c:
+                    return {"k": "ann", "of": t_, "c": c}
+            return t_
         if k == "annprim":
             base = pick(d, ["str", "int", "float"])
             c = self.constraints(base)
@@ -657,7 +666,13 @@ def valid(draw, prog: dict, t: dict, dyn: str = "id", fuel: int = 3, c: Optional
             return img
         if t["t"] == "ver" and chance(draw, 0.4):
             return pick(draw, [[1, 2], [0, 10]])
-        return pick(draw, STD_VALID[t["t"]])
+        pool = STD_VALID[t["t"]]
+        if c:
+            try:
+                pool = [x for x in pool if not M.check_constraints(c, x)] or pool
+            except M.Unspecified:
+                pass
+        return pick(draw, pool)
     if k == "str":
         return _gen_str(draw, c)
     if k == "int":
